@@ -152,6 +152,8 @@ type C18Case struct {
 	gen.Case
 	Foreign []Foreign `json:"foreign"`
 	Probes  []string  `json:"probes"` // tags looked up with fix.ValueByTag
+	// EmptyValue: one populated String/Raw leaf is sent with an empty value, and a look-alike of its tag follows
+	EmptyValue bool `json:"empty_value,omitempty"`
 }
 
 // affixVariants returns tags that have t as a proper decimal suffix or prefix
@@ -217,6 +219,40 @@ func genC18(t *rapid.T) *C18Case {
 		}
 		val, _ := gen.GenStringBytes(t, "foreignVal", tags)
 		cc.Foreign = append(cc.Foreign, Foreign{Pos: rapid.SampledFrom(allowed).Draw(t, "foreignPos"), Tag: tag, Val: val, Rel: rel})
+	}
+	if rapid.IntRange(0, 3).Draw(t, "emptyValue") == 0 {
+		// a genuine field arrives with an EMPTY value (tag= and nothing: only a peer can send that, the
+		// library's own serializer leaves such a field out), and further on the text "tag=" occurs away
+		// from a field boundary: in a longer tag or inside another value
+		var cand []int
+		for i, l := range leaves {
+			if l.Depth == 0 && l.V != nil && !l.V.Decoy && (l.T == gen.TString || l.T == gen.TRaw) {
+				cand = append(cand, i)
+			}
+		}
+		if len(cand) > 0 {
+			i := rapid.SampledFrom(cand).Draw(t, "emptyLeaf")
+			leaves[i].V.S = []byte{}
+			tag := leaves[i].Tok.Tag
+			var later []int
+			for _, a := range allowed {
+				if a > i {
+					later = append(later, a)
+				}
+			}
+			if len(later) > 0 {
+				f := Foreign{Pos: rapid.SampledFrom(later).Draw(t, "leakPos"), Rel: "template-tag-is-suffix"}
+				if rapid.Bool().Draw(t, "leakInTag") {
+					f.Tag, f.Val = "99"+tag, []byte("leak")
+				} else {
+					f.Tag, f.Val, f.Rel = "99"+tag+"1", []byte("ab"+tag+"=leak"), "template-tag-is-prefix"
+				}
+				if !inTpl[f.Tag] {
+					cc.Foreign = append(cc.Foreign, f)
+					cc.EmptyValue = true
+				}
+			}
+		}
 	}
 	sort.SliceStable(cc.Foreign, func(i, j int) bool { return cc.Foreign[i].Pos < cc.Foreign[j].Pos })
 	// probes: every template tag plus affix variants of some
@@ -306,6 +342,9 @@ func checkC18(cc *C18Case, rec *evid.Rec) (vs []pbt.Violation) {
 	rec.Case(evid.FP(msg), nontrivial)
 	if st.Decoys > 0 {
 		rec.Hist("decoy-value")
+	}
+	if cc.EmptyValue {
+		rec.Hist("empty-value-with-a-look-alike-behind-it")
 	}
 	for _, f := range cc.Foreign {
 		rec.Hist("foreign:" + f.Rel)
